@@ -32,6 +32,7 @@ TOL = Fraction(1, 10**9)
 F18_CLASS = {"kind": "aq_to_py_uncovered_quarter"}
 CAND_DROPPED = {"kind": "disaggregate_unobservable_cell_dropped"}
 CAND_DICT = {"kind": "disaggregate_dict_weights_keyerror"}
+ZERO_PREFIX = {"kind": "disaggregate_zero_prefix_weights"}
 DOCUMENTED_CURRENCY_FIELDS = ["earned_premium", "used_earned_premium", "written_premium", "paid_loss",
                               "reported_loss", "incurred_loss"]
 FIELD_POOL = DOCUMENTED_CURRENCY_FIELDS + ["reported_claims", "open_claims", "earned_exposure", "closed_claims"]
@@ -615,18 +616,32 @@ def oracle_aq(case, res):
     return fails
 
 
+def month_id(d):
+    return 12 * (d.year - 1970) + d.month - 1
+
+
 def coq_aq(case, res, tables):
     sl = []
+    b = "true" if case["continuous_issuance"] else "false"
     for ep, s in tables:
         t = "[" + ";".join(f"({cperiod(py)}, [" + ";".join(f"({cperiod(aq)},{cq(x)})" for aq, x in tbl) + "])"
                            for py, tbl in ep) + "]"
-        sl.append(f"({t},\n {ccells_list(s.cells)})")
+        quarters = "[" + ";".join(cperiod(p) for p in s.periods) + "]"
+        params = (f"({b}, {case['policy_length_months']}, {quarters}, ({month_id(s.periods[0][0])}, "
+                  f"{month_id(s.periods[-1][1])}, {case['policy_year_origin'].month}))")
+        sl.append(f"({params}, {t},\n {ccells_list(s.cells)})")
     return f"([{';'.join(sl)}], {cq(TOL)},\n {cresult_ucells(res)})"
 
 
+# besides the redistribution itself, the share table recorded from the implementation's helpers is compared with the
+# table the model computes from (issuance mode, policy length, quarters, first/last month, origin month)
 CHECK_AQ = """
-Definition check (c : list (share_table * list cell) * Q * result (list ucell)) : bool :=
-  let '(slices, tol, impl) := c in uresult_close tol (aq_to_py slices) impl.
+Definition check (c : list ((bool * Z * list period * (Z * Z * Z)) * share_table * list cell) * Q * result (list ucell)) : bool :=
+  let '(slices, tol, impl) := c in
+  forallb (fun s => let '((cont, L, quarters, (f, e, om)), recorded, _) := s in
+                    share_table_close tol recorded
+                      (code_share_table cont L quarters (py_start_ids (py_first_start f om) e))) slices
+  && uresult_close tol (aq_to_py (map (fun s => (snd (fst s), snd s)) slices)) impl.
 """
 
 
@@ -815,14 +830,18 @@ def run(ctx):
         "float rounding of the implementation is outside the model: exact comparison where the arithmetic is exact in "
         "binary64 (dyadic rates / weights / patterns), 1e-9 relative to the model's exact rational otherwise",
         "accident_quarter_to_policy_year: the earned-premium share table (policy_years_covered, "
-        "_policy_earned_premium_share_by_month, monthly_ep_to_quarterly_ep) is recorded from the implementation and fed to "
-        "the model; the conservation theorem holds for any table with positive totals",
+        "_policy_earned_premium_share_by_month, monthly_ep_to_quarterly_ep) is recorded from the implementation, fed to "
+        "the redistribution model AND compared (1e-9) with the modelled share computation code_share_table (month-id "
+        "level, policy-year origin on the first of a month, no custom earning pattern); conservation is proved for any "
+        "table with non-zero totals and, for continuous issuance, unconditionally for the modelled table",
         "disaggregate_experience: cumulative triangles and list weights are modelled; period_resolution / is_semi_regular "
         "are inputs (C13); incremental triangles are covered by the direct oracle only; aggregate o disaggregate = id is "
-        "checked on the implementation (direct oracle), not proved (aggregate's model belongs to C08)",
+        "proved for one fully observable month-aligned cell with exactly representable sub-period values against C08's "
+        "loop-free specification ref_slice; whole triangles and non-representable quotients are checked on the "
+        "implementation on every case (direct oracle)",
         "Triangle(...) re-sorting of results is not modelled: results are compared as multisets of cells",
     ]
-    ctx.audit_tree(["Model/Units.v", "Proofs/UnitsP.v", "Proofs/UnitsQ.v", "Props/C18.v", "GenProps/C18_fields.v"])
+    ctx.audit_tree(["Model/Units.v", "Proofs/UnitsP.v", "Proofs/UnitsQ.v", "Proofs/UnitsAgg.v", "Proofs/UnitsShare.v", "Props/C18.v", "GenProps/C18_fields.v"])
     prove_static_local(ctx, "Props/C18.v")
 
     # ---------------------------------------------------------------- translator + generated obligations
@@ -971,6 +990,21 @@ def probe_candidates(ctx):
             what = ("disaggregate_experience drops a cell whose evaluation date lies before the end of its first sub-period "
                     f"({dropped[0].period_start}..{dropped[0].period_end} at {dropped[0].evaluation_date}): its amounts vanish")
             ctx.violation("impl-violation", what, {"case": case_json(case)}, found_input=True, finding_class=CAND_DROPPED)
+    # H3: a weight vector the code's own validation accepts, whose observable prefix sums to zero
+    t3 = Triangle([cc(D(2020, 1, 1), D(2020, 12, 31), D(2020, 6, 30), {"paid_loss": 100.0}),
+                   cc(D(2020, 1, 1), D(2020, 12, 31), D(2020, 12, 31), {"paid_loss": 200.0})])
+    case3 = dict(kind="disagg", tri=t3, res=3, weights=[0.0, 0.0, 0.5, 0.5], fields=None, how="ok", wtag="dyadic",
+                 R=12, probe="H3")
+    res3 = run_disagg(case3)
+    ctx.count(evaluations=1)
+    if res3[0] == "err" and isinstance(res3[1], ZeroDivisionError):
+        ctx.violation("impl-violation", "disaggregate_experience(period_weights=[0, 0, 0.5, 0.5]) on a cell evaluated after two "
+                      f"of its four quarters raises {type(res3[1]).__name__} instead of splitting or refusing the cell",
+                      {"case": case_json(case3)}, found_input=True, finding_class=ZERO_PREFIX)
+    elif res3[0] == "ok":
+        f3, _ = oracle_disagg(case3, res3)
+        if f3:
+            ctx.violation("impl-violation", "disagg: " + f3[0], {"case": case_json(case3), "failures": f3}, found_input=True)
     t2 = Triangle([cc(D(2020, 1, 1), D(2020, 12, 31), D(2020, 12, 31), {"paid_loss": 200.0})])
     res2 = run_guard(lambda: disaggregate_experience(t2, 3, {D(2020, 1, 1): [0.25, 0.25, 0.25, 0.25]}, None))
     if res2[0] == "err":
@@ -996,6 +1030,8 @@ def replay(ctx, data):
     print(case["kind"], {k: v for k, v in case.items() if k != "tri"}, "->",
           "ok" if res[0] == "ok" else repr(res[1]))
     fails, fc = evaluate(case, res)
+    if case.get("probe") == "H3" and res[0] == "err":
+        fails = fails + [f"raised {type(res[1]).__name__}: {res[1]}"]
     for f in fails[:10]:
         print("  FAIL:", f)
     if fc:
